@@ -7,6 +7,7 @@ import Proofs.DkgShare
 import Proofs.DkgAgree
 import Proofs.DkgNonzero
 import Proofs.DkgJointAgree
+import Proofs.DkgJointEnd
 import Driver.Dkg
 
 /-! # C07 — DKG: honest participants agree on the verdict and on consistent keys
@@ -320,6 +321,60 @@ theorem joint_end_agrees_given_instances_partial (jA jB : JSt O) (hrA : jA.joint
     cases jpub jA.size jA.threshold jA.fvss <;> rfl
 
 open Proofs.DkgCommute Proofs.DkgAgree in
+/-- tie between executions of the model's Joint-Feldman API and the per-instance executions the instance theorems
+    speak about: a started participant that receives three rounds of deliveries through `Joint.handleBroadcast` /
+    `Joint.handlePrivate` with `Joint.nextTimeout` in between (`jfinal`) holds exactly the `final` states of the
+    instances it held after `Start`, all past both timeouts -/
+theorem joint_execution_is_instancewise {n : Nat} (j : JSt O) (h : JI n false false j) (r1 r2 r3 : List Dl)
+    (h1 : ∀ e ∈ r1, e.sender < n) (h2 : ∀ e ∈ r2, e.sender < n) (h3 : ∀ e ∈ r3, e.sender < n) :
+    (jfinal j r1 r2 r3).fvss = j.fvss.map (fun s => final s r1 r2 r3) ∧ (jfinal j r1 r2 r3).size = j.size ∧
+    (jfinal j r1 r2 r3).threshold = j.threshold ∧ JI n true true (jfinal j r1 r2 r3) :=
+  jfinal_fvss j h r1 r2 r3 h1 h2 h3
+
+open Proofs.DkgCommute Proofs.DkgAgree in
+/-- the instances a participant holds right after a successful `Joint.start`: the fresh receiver instance for every
+    other dealer, and for itself the dealer instance holding the vector of the polynomial it drew (`DS`) -/
+theorem joint_instances_after_start (K : Finset Nat) (size threshold me : Nat) (seed : Bytes) (j : JSt O)
+    (outs : List Out) (hme : me < size) (h : Joint.start (Joint.init O size threshold me) seed = (j, outs, .ok)) :
+    ∃ sD : St O, (∃ a, DS K (O.vecOfPoly size a) sD) ∧ sD.size = size ∧ sD.threshold = threshold ∧ sD.running = true ∧
+      sD.sharesTimeout = false ∧ sD.complaintsTimeout = false ∧ sD.dealer = me ∧
+      j.fvss = (List.range size).map (fun i => if i = me then sD else fresh O size threshold me i) ∧
+      j.size = size ∧ j.threshold = threshold ∧ j.jointRunning = true :=
+  joint_start_fvss K size threshold me seed j outs hme h
+
+open Proofs.DkgCommute Proofs.DkgAgree in
+/-- **Joint-Feldman: two honest participants end with the same public result** — the closed composition of the
+    instance theorems, stated on executions of the model's API (`Joint.start`, then `jfinal` = three rounds through
+    `HandleBroadcastMsg`/`HandlePrivateMsg` with `NextTimeout` in between, then `Joint.end_`). Hypotheses: reliable
+    broadcast with synchronous rounds for the instances of every third-party dealer (`NetD`; those dealers and all
+    other participants are arbitrary, Byzantine included), and honest-dealer delivery (`OwnNet`) for the two
+    instances `A` and `B` deal themselves. Conclusion: both fail, or both return the same group public key and the
+    same public key shares, each with its own private share. -/
+theorem joint_feldman_agreement (size threshold A B : Nat) (hs : size ≤ 256) (hA : A < size) (hB : B < size)
+    (hab : A ≠ B) (seedA seedB : Bytes) (jA jB : JSt O) (outsA outsB : List Out)
+    (stA : Joint.start (Joint.init O size threshold A) seedA = (jA, outsA, .ok))
+    (stB : Joint.start (Joint.init O size threshold B) seedB = (jB, outsB, .ok))
+    (rA1 rA2 rA3 rB1 rB2 rB3 : List Dl)
+    (ba1 : ∀ e ∈ rA1, e.sender < size) (ba2 : ∀ e ∈ rA2, e.sender < size) (ba3 : ∀ e ∈ rA3, e.sender < size)
+    (bb1 : ∀ e ∈ rB1, e.sender < size) (bb2 : ∀ e ∈ rB2, e.sender < size) (bb3 : ∀ e ∈ rB3, e.sender < size)
+    (third : ∀ d, d < size → d ≠ A → d ≠ B →
+      NetD d A B rA1 rB1 (bR1 (fresh O size threshold A d) rA1) (bR1 (fresh O size threshold B d) rB1) ∧
+      NetD d A B rA2 rB2 (bR2 (fresh O size threshold A d) rA1 rA2) (bR2 (fresh O size threshold B d) rB1 rB2) ∧
+      NetD d A B rA3 rB3 (bR3 (fresh O size threshold A d) rA1 rA2 rA3) (bR3 (fresh O size threshold B d) rB1 rB2 rB3))
+    (KA KB : Finset Nat)
+    (ownA : ∀ sD ∈ jA.fvss, sD.dealer = A → ∀ v, sD.vA = some v →
+      OwnNet KA v (fresh O size threshold B A) rA1 rA2 rA3 rB1 rB2 rB3)
+    (ownB : ∀ sD ∈ jB.fvss, sD.dealer = B → ∀ v, sD.vA = some v →
+      OwnNet KB v (fresh O size threshold A B) rB1 rB2 rB3 rA1 rA2 rA3) :
+    ∃ pub : Option (Bytes × List Bytes), ∃ xA xB : Nat,
+      (Joint.end_ (jfinal jA rA1 rA2 rA3)).2.2 =
+        (match pub with | none => .failure | some Yys => if xA = 0 then .failure else .keys xA Yys.1 Yys.2) ∧
+      (Joint.end_ (jfinal jB rB1 rB2 rB3)).2.2 =
+        (match pub with | none => .failure | some Yys => if xB = 0 then .failure else .keys xB Yys.1 Yys.2) :=
+  Proofs.DkgAgree.joint_feldman_agreement size threshold A B hs hA hB hab seedA seedB jA jB outsA outsB stA stB
+    rA1 rA2 rA3 rB1 rB2 rB3 ba1 ba2 ba3 bb1 bb2 bb3 third KA KB ownA ownB
+
+open Proofs.DkgCommute Proofs.DkgAgree in
 /-- the broadcasts of `A` an instance of another dealer ignores: everything but `A`'s complaint against that dealer -/
 theorem joint_irrelevant_broadcasts_ignored (s : St O) (hme : s.me ≠ s.dealer) (A : Nat) (hAd : A ≠ s.dealer)
     (hd : s.dealer < 256) (e : Dl) (h : irrelevant A s.dealer e = true) :
@@ -432,6 +487,112 @@ example : pubRes (final (fresh toy 3 1 1 0) nvA1 nvR2 []) = some ([], []) ∧
   refine ⟨by decide +kernel, by decide +kernel, ⟨nv_stream _ _ rfl (fun _ => rfl), rfl, rfl⟩,
     ⟨nv_stream _ _ rfl (fun _ => rfl), rfl, rfl⟩, ⟨nv_stream _ _ rfl (fun _ => rfl), rfl, rfl⟩⟩
 
+
+/-! #### non-vacuity of `joint_feldman_agreement`: two participants, each deals to the other, nobody complains -/
+
+/-- toy crypto record in which `Start` succeeds: every share is 1 and valid -/
+def toyJ : Ops where
+  Vec := Unit
+  readVec := fun _ _ _ => some ()
+  checkLog := fun _ _ _ => true
+  readScalar := fun _ => some 1
+  writeScalar := fun _ => List.replicate 32 0
+  addScalar := fun a b => a + b
+  groupKey := fun _ => []
+  pubShares := fun _ => []
+  groupKeyIsIdentity := fun _ => false
+  sumVecs := fun _ => some ()
+  genPoly := fun _ _ => some [1]
+  polyEval := fun _ _ => 1
+  vecBytes := fun _ => List.replicate (96 * 2) 0
+  vecOfPoly := fun _ _ => ()
+
+def jShare : Bytes := tagShare :: List.replicate 32 0
+/-- what a participant of the toy run receives in the first round from the other one `o`: vector and share -/
+def jRound (o : Nat) : List Dl := [.bcast o (tagVerifVec :: toyVec), .priv o jShare]
+
+open Proofs.DkgAgree in
+theorem nv_own (rcv dealer : Nat) (hne : rcv ≠ dealer) (v : Unit) :
+    OwnNet (O := toyJ) ∅ v (fresh toyJ 2 1 rcv dealer) (jRound rcv) [] [] (jRound dealer) [] [] := by
+  have hcl1 : ∀ t : St toyJ, CfgCT (fresh toyJ 2 1 rcv dealer) false t →
+      classify t (.bcast dealer (tagVerifVec :: toyVec)) = .vec toyVec := by
+    intro t ⟨h1, h2, _, _, _⟩
+    show classifyB t dealer (tagVerifVec :: toyVec) = _
+    unfold classifyB
+    have e1 : t.me = rcv := h1
+    have e2 : t.dealer = dealer := h2
+    simp [e1, e2, hne, tagVerifVec]
+  have hcl2 : ∀ t : St toyJ, CfgCT (fresh toyJ 2 1 rcv dealer) false t →
+      classify t (.priv dealer jShare) = .share jShare := by
+    intro t ⟨h1, h2, _, _, _⟩
+    show (if t.me = dealer then Kind.noop else if dealer = t.dealer then Kind.share jShare else Kind.noop) = _
+    have e1 : t.me = rcv := h1
+    have e2 : t.dealer = dealer := h2
+    simp [e1, e2, hne]
+  refine ⟨{ v0 := (), vb := toyVec, x0 := 1, sb := jShare, me := rcv, shareOk := rfl }, rfl, rfl, by simp [Proofs.DkgAgree.fresh], ?_, ?_, ?_,
+    ?_, ?_, ?_, ⟨_, by simp [jRound], toyVec, hcl1⟩, ⟨_, List.mem_cons_of_mem _ (by simp), jShare, hcl2⟩,
+    fun k hk => by simp at hk⟩
+  · intro o m hm ht
+    simp only [jRound, List.mem_cons, List.not_mem_nil, or_false] at hm
+    rcases hm with hm | hm
+    · cases hm
+      exact absurd ht (by decide)
+    · cases hm
+  · intro o m hm; cases hm
+  · intro o m hm; cases hm
+  · intro e he t ht
+    simp only [jRound, List.mem_cons, List.not_mem_nil, or_false] at he
+    rcases he with rfl | rfl
+    · rw [hcl1 t ht]
+      refine ⟨⟨rfl, ?_⟩, trivial, trivial⟩
+      unfold parseVec
+      have hth : t.threshold = 1 := ht.2.2.2.1
+      have hlen : toyVec.length = verifVectorSize * (t.threshold + 1) := by
+        rw [hth]; unfold toyVec verifVectorSize; rw [List.length_replicate]
+      rw [if_neg (fun hne' => hne' hlen)]
+      rfl
+    · rw [hcl2 t ht]
+      refine ⟨⟨rfl, ?_⟩, trivial, trivial⟩
+      rfl
+  · intro e he; cases he
+  · intro e he; cases he
+
+def jA0 : JSt toyJ := (Joint.start (Joint.init toyJ 2 1 0) []).1
+def jB0 : JSt toyJ := (Joint.start (Joint.init toyJ 2 1 1) []).1
+
+open Proofs.DkgAgree in
+/-- the hypotheses of `joint_feldman_agreement` are met by a run of the model's API in which both `Start` calls
+    succeed, and the common result is a pair of keys (not the failure) -/
+example :
+    (∃ pub : Option (Bytes × List Bytes), ∃ xA xB : Nat,
+      (Joint.end_ (jfinal jA0 (jRound 1) [] [])).2.2 =
+        (match pub with | none => .failure | some Yys => if xA = 0 then .failure else .keys xA Yys.1 Yys.2) ∧
+      (Joint.end_ (jfinal jB0 (jRound 0) [] [])).2.2 =
+        (match pub with | none => .failure | some Yys => if xB = 0 then .failure else .keys xB Yys.1 Yys.2)) ∧
+    (Joint.end_ (jfinal jA0 (jRound 1) [] [])).2.2 = .keys 2 [] [] ∧
+    (Joint.end_ (jfinal jB0 (jRound 0) [] [])).2.2 = .keys 2 [] [] := by
+  refine ⟨?_, by decide +kernel, by decide +kernel⟩
+  refine joint_feldman_agreement (O := toyJ) 2 1 0 1 (by decide) (by decide) (by decide) (by decide) [] [] jA0 jB0
+    (Joint.start (Joint.init toyJ 2 1 0) []).2.1 (Joint.start (Joint.init toyJ 2 1 1) []).2.1 ?_ ?_
+    (jRound 1) [] [] (jRound 0) [] [] ?_ ?_ ?_ ?_ ?_ ?_ ?_ ∅ ∅ ?_ ?_
+  · have : (Joint.start (Joint.init toyJ 2 1 0) []).2.2 = .ok := by decide +kernel
+    rw [← this]; rfl
+  · have : (Joint.start (Joint.init toyJ 2 1 1) []).2.2 = .ok := by decide +kernel
+    rw [← this]; rfl
+  · intro e he
+    simp only [jRound, List.mem_cons, List.not_mem_nil, or_false] at he
+    rcases he with rfl | rfl <;> decide
+  · intro e he; cases he
+  · intro e he; cases he
+  · intro e he
+    simp only [jRound, List.mem_cons, List.not_mem_nil, or_false] at he
+    rcases he with rfl | rfl <;> decide
+  · intro e he; cases he
+  · intro e he; cases he
+  · intro d hd h0 h1; omega
+  · intro sD _ _ v _; exact nv_own 1 0 (by decide) v
+  · intro sD _ _ v _; exact nv_own 0 1 (by decide) v
+
 end NonVacuity
 
 end Props.C07
@@ -461,3 +622,6 @@ end Props.C07
 #print axioms Props.C07.joint_end_agrees_given_instances_partial
 #print axioms Props.C07.honest_dealer_instance_views_agree
 #print axioms Props.C07.dealer_instance_after_start
+#print axioms Props.C07.joint_execution_is_instancewise
+#print axioms Props.C07.joint_instances_after_start
+#print axioms Props.C07.joint_feldman_agreement
